@@ -19,14 +19,17 @@
    the harness decides inside Coq (Scope/SpecCheck.v, proved sound) on generated programs.
    PYTHON (Scope/PySpec.v, Scope/PySpecProofs*.v): the same end-to-end statement for the
    indentation family (`C01_python`).
-   MISSING (validated by the generator of harness/progen.py on every run, not proved):
-   that every program of the informally described canonical grammar satisfies
-   `wf_descs` / `py_wf_descs` and the lexical condition (the grammar itself is not formalised).
+   FORMAL GRAMMAR (Scope/Grammar.v, Scope/GrammarProofs*.v): for the C family a token-level
+   canonical grammar is formalised and every program it generates is proved to satisfy both
+   hypotheses: `C01_grammar_cpp`, `C01_grammar_c` are unconditional on the descriptor side.
+   MISSING: the same for the other languages' grammars (Java/C#/JS/TS/Python use the
+   hypothesis form, validated per generated program), brace groups inside parameter lists,
+   and the lexers themselves (oracles under the C16 contract).
    Proofs: Scope/SpecProofs{Dyck,Pairing,Fold,Count,}.v, Scope/HeaderProofs{Dfa,Select,}.v. *)
 From Verif Require Import Base Token Lex LexProofs Headers Blocks Pairing Fold ScanFile Spec
   SpecProofsDyck SpecProofsPairing SpecProofsFold SpecProofsCount SpecProofs
   Regex TokEngine HeaderSpec HeaderProofsDfa HeaderProofsSelect HeaderProofs SpecCheck
-  LexShapes ShapeProofs PySpec PySpecProofsLines PySpecProofs PySpecCheck PyLexical GenCompare TieProofs.
+  LexShapes ShapeProofs PySpec PySpecProofsLines PySpecProofs PySpecCheck PyLexical GenCompare TieProofs Grammar GrammarProofs.
 From Coq Require Import Sorted Permutation.
 
 Theorem C01_brace_pipeline_partial : forall (l : language) toks ds,
@@ -136,6 +139,26 @@ Theorem C01_python_hypotheses_decidable : forall ts ds,
   (py_lexically_canonical_b ts ds = true -> py_lexically_canonical ts ds).
 Proof. intros ts ds. split; [apply py_wf_descs_b_sound|apply py_lexically_canonical_b_sound]. Qed.
 
+(* ---- a FORMAL canonical grammar (Scope/Grammar.v: token-level, C family without brace groups in parameter lists:
+        statements ending in ";", control statements "keyword [(...)] { items }", functions "[type words] name (...)+
+        { items }", nested where the language nests): for every program it generates, with the descriptors it generates,
+        C01 holds with no hypothesis left but the lexer's (C16) and the absence of markers (C17) ---- *)
+Theorem C01_grammar_cpp : forall toks ds, let code := filter_tokens false toks in
+  canonical_program true code ds -> StronglySorted pos_lt code -> filter_nocl_comment_tokens toks = [] ->
+  scan_file LCpp toks = expected_all code ds ds.
+Proof. exact C01_cpp_grammar. Qed.
+Theorem C01_grammar_c : forall toks ds, let code := filter_tokens false toks in
+  canonical_program false code ds -> StronglySorted pos_lt code -> filter_nocl_comment_tokens toks = [] ->
+  scan_file LC toks = expected_all code ds ds.
+Proof. exact C01_c_grammar. Qed.
+Theorem C01_grammar_meets_hypotheses : forall nested ts ds, canonical_program nested ts ds ->
+  wf_descs ts ds /\ lexically_canonical ts ds /\
+  (nested = false -> forall c d, In c ds -> In d ds -> ~ nested_in c d).
+Proof.
+  intros nested ts ds H. split; [exact (canonical_wf nested ts ds H)|]. split; [exact (canonical_lexical nested ts ds H)|].
+  intros E; subst nested. exact (canonical_flat ts ds H).
+Qed.
+
 (* ---- the comparison operators of the hand-written scope model are the ones the source states: each is equal to
         the definition regenerated from TokenRange.py / Scope.py / scope_utils.py / Python.py on this run ---- *)
 Theorem C01_operators_tied :
@@ -155,11 +178,16 @@ Theorem C01_operators_tied :
      if py_line_not_below_header (tok_line ts (line_first l)) hline then acc
      else if py_line_deeper (tok_col ts (line_first l)) hindent then block_lines ts r hline hindent (acc ++ [li])
      else block_lines ts r hline hindent []) /\
-  (forall (ts : list token) (h : header), Nat.leb (length ts) (h_end h) = py_header_at_end (Z.of_nat (h_end h)) (Z.of_nat (length ts))).
+  (forall (ts : list token) (h : header), Nat.leb (length ts) (h_end h) = py_header_at_end (Z.of_nat (h_end h)) (Z.of_nat (length ts))) /\
+  (forall i t r op cl stack, is_symbol t op = false -> is_symbol t cl = true ->
+     balanced_from i (t :: r) op cl stack =
+     if balanced_has_open (Z.of_nat (length stack))
+     then match stack with s :: stack' => (s, Z.to_nat (balanced_range_end (Z.of_nat i))) :: balanced_from (S i) r op cl stack' | [] => [] end
+     else balanced_from (S i) r op cl []).
 Proof.
   split; [exact tie_range_lt|]. split; [exact tie_range_contains|]. split; [exact tie_range_overlaps|].
   split; [exact tie_scope_contains|]. split; [exact tie_block_after_header|]. split; [exact tie_drop_passed|].
-  split; [exact tie_scope_token_step|]. split; [exact tie_block_lines|exact tie_py_header_at_end].
+  split; [exact tie_scope_token_step|]. split; [exact tie_block_lines|]. split; [exact tie_py_header_at_end|exact tie_balanced_close].
 Qed.
 
 (* the boolean checkers the harness evaluates are sound for the hypotheses *)
@@ -177,6 +205,9 @@ Print Assumptions C01_headers_lexical.
 Print Assumptions C01_brace.
 Print Assumptions C01_flat.
 Print Assumptions C01_operators_tied.
+Print Assumptions C01_grammar_cpp.
+Print Assumptions C01_grammar_c.
+Print Assumptions C01_grammar_meets_hypotheses.
 Print Assumptions C01_python.
 Print Assumptions C01_python_blocks.
 Print Assumptions C01_python_hypotheses_decidable.
